@@ -226,6 +226,24 @@ def mod_equiv(a, b, m) -> bool:
     return False
 
 
+def T_sum(ix, tag, body):
+    """Σ_{ix} body, normalised by linearity: sums distribute over + and factors that do not
+    depend on the index move out, so  Σ_e p*(r + g*v)  ==  Σ_e p*r + g*Σ_e p*v."""
+    if body[0] in ("lam", "tuple"):
+        return ("red", "sum", ix, tag, body)
+    p = to_poly(body)
+    if not p:
+        return ZERO
+    out = {}
+    for mono, c in p.items():
+        dep = tuple((a, k) for a, k in mono if occurs(a, lambda x: x == ix))
+        indep = tuple((a, k) for a, k in mono if (a, k) not in dep)
+        inner = mk_poly({dep: Fraction(1)}) if dep else ONE
+        atom = ("red", "sum", ix, tag, inner)
+        out = P_add(out, P_mul({indep: c}, P_atom(atom)))
+    return mk_poly(out)
+
+
 def T_floordiv(a, b):
     if is_num(a) and is_num(b) and b[1] != 0:
         return K(a[1] // b[1])
@@ -429,34 +447,40 @@ def show_norm(t) -> str:
     return _re.sub(r"\b(act|ev|slot|dev|batch|state|sdim|adim|edim|dim|\?)(\d+)", r"\1#", show(t))
 
 
-def alpha_norm(t):
-    """α-normalise index variables: number binders in order of first occurrence."""
-    binders = []
-
-    def collect(x):
-        if not isinstance(x, tuple) or not x:
-            return
-        if x[0] == "lam":
-            binders.append(x[1])
-        elif x[0] == "red":
-            binders.append(x[2])
-        elif x[0] == "sumover":
-            binders.append(x[1])
-        if x[0] == "poly":
-            for mono, _c in x[1]:
-                for a, _p in mono:
-                    collect(a)
-            return
-        for y in x:
-            if isinstance(y, tuple):
-                collect(y)
-
-    collect(t)
-    m = {}
-    for b in binders:
-        if b not in m and b[0] == "ix":
-            m[b] = ("ix", b[1], f"v{len(m)}")
-    return subst(t, m)
+def alpha_norm(t, depth=0):
+    """α-normalise bound index variables to de Bruijn *levels* (binder at nesting depth d is
+    named L<d>), re-normalising polynomials afterwards.  Independent of fresh-name numbering
+    and of the order in which sibling sub-terms were sorted."""
+    if not isinstance(t, tuple) or not t or not isinstance(t[0], str):
+        return t
+    k = t[0]
+    if k in ("const", "sym", "ix"):
+        return t
+    if k == "lam":
+        new = ("ix", t[2], f"L{depth}")
+        return ("lam", new, t[2], alpha_norm(subst(t[3], {t[1]: new}), depth + 1))
+    if k == "red":
+        new = ("ix", t[3], f"L{depth}")
+        return ("red", t[1], new, t[3], alpha_norm(subst(t[4], {t[2]: new}), depth + 1))
+    if k == "sumover":
+        new = ("ix", "sum", f"L{depth}")
+        return ("sumover", new, alpha_norm(t[2], depth), alpha_norm(subst(t[3], {t[1]: new}), depth + 1))
+    if k == "poly":
+        r = {}
+        for mono, c in t[1]:
+            q = P_const(c)
+            for a, pw in mono:
+                aa = alpha_norm(a, depth)
+                base = to_poly(aa) if pw > 0 else to_poly(T_inv(aa))
+                for _ in range(abs(pw)):
+                    q = P_mul(q, base)
+            r = P_add(r, q)
+        return mk_poly(r)
+    if k == "app":
+        return rebuild_app(t[1], tuple(alpha_norm(x, depth) if isinstance(x, tuple) else x for x in t[2]))
+    if k == "elem":
+        return ("elem", alpha_norm(t[1], depth), tuple(alpha_norm(i, depth) for i in t[2]))
+    return tuple(alpha_norm(x, depth) if isinstance(x, tuple) else x for x in t)
 
 
 def subst_binders(t, m):
